@@ -234,7 +234,7 @@ def enum_classics(tier):
 
 
 def enum_tiny(tier):
-    stride = 25 if tier == "quick" else 2
+    stride = 8 if tier == "quick" else 1
 
     def it():
         for i, g in enumerate(gen.tiny_grammars(1 if tier == "quick" else 2)):
@@ -248,10 +248,10 @@ def enum_tiny(tier):
 SUBCHECKS = [
     SubCheck("classics", run_case, enumerate=enum_classics),
     SubCheck("tiny-exhaustive", run_case, enumerate=enum_tiny),
-    SubCheck("random-L0", run_case, strategy=strat_l0, examples={"quick": 1600, "thorough": 12000}),
+    SubCheck("random-L0", run_case, strategy=strat_l0, examples={"quick": 4800, "thorough": 48000}),
     SubCheck("random-ambiguous-long", run_case, strategy=strat_ambiguous,
-             examples={"quick": 320, "thorough": 3000}),
-    SubCheck("random-L1-overlapping", run_case, strategy=strat_l1, examples={"quick": 480, "thorough": 4000}),
+             examples={"quick": 960, "thorough": 9600}),
+    SubCheck("random-L1-overlapping", run_case, strategy=strat_l1, examples={"quick": 1600, "thorough": 16000}),
 ]
 
 
